@@ -6,6 +6,7 @@ import (
 	"bytes"
 	"fmt"
 	"math/big"
+	"os"
 	"sort"
 	"strings"
 	"sync"
@@ -153,8 +154,18 @@ func (w *world) checkTx(ob *vh.ObservedBlock, i int, d *txDesc) {
 	if ok {
 		outcome = "accepted"
 	}
+	if os.Getenv("C16_DEBUG") != "" && !ok {
+		fmt.Printf("DBG %s | code=%d/%s | %s\n", d.Class, res.Code, res.Codespace, trunc(res.Log, 160))
+	}
 	run.Count("class_"+d.Class+"_"+outcome, 1)
-	run.Nontrivial(d.Class + "|" + outcome)
+	run.Nontrivial(fmt.Sprintf("%s|d%d|%s", d.Class, d.Depth, outcome))
+	if d.Depth > 0 {
+		what := "proof"
+		if len(d.Vests) > 0 {
+			what = "vest"
+		}
+		run.Count(fmt.Sprintf("exec_depth_%d_%s_%s", d.Depth, what, outcome), 1)
+	}
 	run.Distinct("scenarios", d.Scn)
 	if ob.PostIsEndBlock[i] {
 		run.Count("post_state_after_endblock_skipped", 1)
@@ -340,7 +351,12 @@ func (w *world) checkTx(ob *vh.ObservedBlock, i int, d *txDesc) {
 	for a := range want {
 		seen[a] = true
 	}
+	addrs := make([]common.Address, 0, len(seen))
 	for a := range seen {
+		addrs = append(addrs, a)
+	}
+	sort.Slice(addrs, func(i, j int) bool { return bytes.Compare(addrs[i][:], addrs[j][:]) < 0 })
+	for _, a := range addrs {
 		if actual(a).Cmp(orZero(want[a])) != 0 {
 			sig := "balance-delta-mismatch:" + outcome
 			run.Violation(sig, w.label, wit(map[string]any{"address": a.Hex(), "delta": actual(a).String(), "expected": orZero(want[a]).String()}))
